@@ -39,6 +39,7 @@ func protoModel(fn *ssa.Function) Intrinsic {
 	case "Reset":
 		return func(fr *frame, args []value) value {
 			p := args[0].(*value)
+			fr.i.noteWrite(p)
 			*p = zero(mustDeref(recv))
 			return nil
 		}
